@@ -38,14 +38,14 @@ CHECKS = {
    text="Every sampled encoder/decoder call of the anchored files (adaptive auto and forced, FOR scalar/batch with meta NULL/zeroed/pre-analysed, PFOR, float, dictionary, bitmap encode/decode, RLE, BP128) is executed on a simulator-owned stack in nine contexts that differ only in hidden state: zeroed memory; seeded garbage with a history of other API calls on the same stack; stack, heap and buffers filled with the call's own count as 64-/32-bit words, with ones, with a small width; the same API called just before with other data of equal length (and with the same data); and a freshly spawned process with ASLR on. Return value, produced bytes and decoded values must be identical in all contexts; a crash or damaged canary in one context only is a disagreement. The library is built by the pinned compiler (gcc) at -O2 and -O0, unsanitised, because stack layout decides which residue a local sees. Seeded exploration over (call, arguments, context).",
    design_ref="DESIGN.md 2.8, 3/C15",
    note="Trusted: the stack switch and fill code (sim/seams/stackctx.cc), the allocator shim. Not compared: bytes beyond the returned length, struct padding, metadata out-fields. Caller-owned in/out metadata is only passed in documented states."),
- "C09": dict(engine="E-HIST hist.packed + E-TRACE footprint", category="exploration",
+ "C09": dict(engine="E-HIST hist.packed + hist.hugepacked + E-TRACE footprint", category="exploration",
    technique="deterministic simulation: seeded operation histories against a reference bit-stream image, access tracer as footprint monitor",
-   text="Operation histories (set/get/increment/halve; sorted insert, delete-member, member, lower bound; positional insert/delete) on 112 generated instantiations of varintPacked.h - every bit width 1-32 with default 32-bit slots, compact slots, explicit 8/16/64-bit slots, the micro-promotion variant used by varintDimension.c and five instantiations with 8-/16-bit length types (PACK_MAX_ELEMENTS), wherever an element never spans more than two slots; arrays from one slot period up to 70000 elements; the *Bytes convenience forms included. After each operation the complete storage block (guards, all elements, spare bits) is compared with an independently computed little-endian bit-stream image, return values with a sorted-vector model (member = first equal element or -1), and for the single-element operations the traced accesses must lie inside the slots the element occupies. This family decides the history and footprint parts of the statement; the inputs x configurations part is covered only as far as the swarm makes every (width, slot type, position mod slot period) occur.",
+   text="Operation histories (set/get/increment/halve; sorted insert, delete-member, member, lower bound; positional insert/delete) on 112 generated instantiations of varintPacked.h - every bit width 1-32 with default 32-bit slots, compact slots, explicit 8/16/64-bit slots, the micro-promotion variant used by varintDimension.c and five instantiations with 8-/16-bit length types (PACK_MAX_ELEMENTS), wherever an element never spans more than two slots; arrays from one slot period up to 70000 elements; the *Bytes convenience forms included. After each operation the complete storage block (guards, all elements, spare bits) is compared with an independently computed little-endian bit-stream image, return values with a sorted-vector model (member = first equal element or -1), and for the single-element operations the traced accesses must lie inside the slots the element occupies. A second engine addresses element indexes whose bit offset exceeds 2^32 (instantiations with a 32-bit length type, storage as an untouched NORESERVE mapping of up to 16 GiB between guard pages, sparse model, alias probes). This family decides the history and footprint parts of the statement; the inputs x configurations part is covered only as far as the swarm makes every (width, slot type, position mod slot period) occur.",
    design_ref="DESIGN.md 3/C09",
    note="Trusted: the reference bit-stream model, the generated shim (tools/gen_packed_shim.py), clang's TSan instrumentation pass for which accesses are seen, the mem* wrappers. SetIncr only in its stated domain."),
  "C10": dict(engine="E-HIST hist.matrix + hist.hugematrix", category="exploration",
    technique="deterministic simulation: seeded cell-write histories against a byte image model under ASan",
-   text="create(rows, cols) for all 72 header shapes (row width 0-8 x column width 1-8) followed by histories of cell writes and reads of one entry kind (bit set/clear/toggle, unsigned 1-8 bytes, float, double): the header must occupy exactly the announced number of bytes and hold the little-endian counts, the packed single-integer form must round-trip, every read must return the written value, toggle must return the previous value, set(false) must clear, and after every write the whole exact-size buffer must equal the model image so that no other cell and no header byte changed. A second engine addresses matrices of up to 1 GiB (cell indices beyond 2^32) on untouched NORESERVE mappings with a sparse model and alias probes; half-float entries are included when the CPU has F16C. History part of the statement; the pure header round trip over all 2^64 pairs is sampled, not enumerated.",
+   text="create(rows, cols) for all 72 header shapes (row width 0-8 x column width 1-8) followed by histories of cell writes and reads of one entry kind (bit set/clear/toggle, unsigned 1-8 bytes, float and double including signed zeros and NaN payloads, compared as stored bits), repeated writes to one cell, and re-use of the buffer by another matrix of the same width class whose header is copied in: the header must occupy exactly the announced number of bytes and hold the little-endian counts, the packed single-integer form must round-trip, every read must return the written value, toggle must return the previous value, set(false) must clear, and after every write the whole exact-size buffer must equal the model image so that no other cell and no header byte changed. A second engine addresses matrices of up to 1 GiB (cell indices beyond 2^32) on untouched NORESERVE mappings with a sparse model and alias probes; half-float entries are included when the CPU has F16C. History part of the statement; the pure header round trip over all 2^64 pairs is sampled, not enumerated.",
    design_ref="DESIGN.md 3/C10",
    note="Trusted: the byte image model; ASan redzones as guard. In hist.matrix bodies above 256 KiB are addressed in row 0 only; hist.hugematrix compares the written bytes, their neighbourhood and alias candidates rather than the whole body. Half-float entries need a CPU with F16C."),
  "C17": dict(engine="E-FIBER + E-TRACE fiber", category="exploration",
@@ -99,12 +99,12 @@ def main():
              "kind_free_text": "dictionary object histories under allocation faults"},
             {"name": "E-RESIDUE", "path": "sim/seams/stackctx.cc + sim/engines/residue.cc", "serves_properties": ["C15"],
              "kind_free_text": "same call in contexts differing only in stack/heap/buffer residue, preceding calls, process image"},
-            {"name": "E-HIST-PACKED", "path": "sim/engines/hist_packed.cc", "serves_properties": ["C09"],
+            {"name": "E-HIST-PACKED", "path": "sim/engines/hist_packed.cc + sim/engines/hist_packed_huge.cc", "serves_properties": ["C09"],
              "kind_free_text": "packed-array histories vs reference bit-stream image + access footprint monitor"},
             {"name": "E-HIST-MATRIX", "path": "sim/engines/hist_matrix.cc + sim/engines/hist_matrix_huge.cc", "serves_properties": ["C10"],
              "kind_free_text": "dimension header + matrix cell histories vs byte image model"},
             {"name": "E-FIBER", "path": "sim/seams/fiber.cc + sim/engines/fiber_engine.cc", "serves_properties": ["C17"],
-             "kind_free_text": "cooperative fibers, seeded scheduler at TSan-instrumentation yield points, byte-granular conflict detector"},
+             "kind_free_text": "cooperative fibers with per-task thread-local storage, seeded scheduler at TSan-instrumentation yield points, byte-granular happens-before (vector clock) conflict detector, simulated mutex/spin/rwlock/once/atomics"},
             {"name": "E-PIPE", "path": "sim/engines/pipe.cc", "serves_properties": ["C13", "C14"],
              "kind_free_text": "producer (real encoder) -> fault-injecting medium -> consumer (real decoder on exact-size blocks)"},
         ],
